@@ -22,6 +22,9 @@ mod wire;
 
 use util::{Cfg, Tier};
 
+#[global_allocator]
+static ALLOC: childrun::Counting = childrun::Counting;
+
 fn main() {
     let args: Vec<String> = std::env::args().collect();
     if args.len() < 2 {
